@@ -312,3 +312,29 @@ def quiet_logging():
         if name.startswith("pandapipes") or name.startswith("pandapower"):
             lg = logging.getLogger(name)
             lg.setLevel(logging.CRITICAL)
+
+
+class ColebrookSpy:
+    """Observation seam: the arguments with which the friction-factor iteration is really started (the option values
+    *in force*, as opposed to the values resolved into net._options)."""
+
+    def __init__(self):
+        import pandapipes.pf.derivative_calculation as dc
+        self.mod = dc
+        self.orig = None
+        self.calls = []
+
+    def install(self):
+        self.orig = self.mod.colebrook_white
+        orig, calls = self.orig, self.calls
+
+        def spy(re, d, k, lambda_nikuradse, max_iter, *args, **kwargs):
+            tol = args[1] if len(args) > 1 else kwargs.get("tolerance", kwargs.get("tol"))
+            calls.append((max_iter, tol))
+            return orig(re, d, k, lambda_nikuradse, max_iter, *args, **kwargs)
+        self.mod.colebrook_white = spy
+
+    def uninstall(self):
+        if self.orig is not None:
+            self.mod.colebrook_white = self.orig
+            self.orig = None
